@@ -106,4 +106,28 @@ PROPS = {
         trusted=["crate bitvec / core as compiled"],
         assumptions=["power loss = the device refuses every operation from the crash point on; erase is atomic per block"],
     ),
+    "C14": dict(
+        modules=["Fuota.Props.C14", "Fuota.Lemmas.Crc", "Fuota.Lemmas.CrcLoop"],
+        suites=[dict(name="d7", cfg="matrix"), dict(name="d7", cfg="naive", thorough_only=True)],
+        rule="query = one validation call on a crafted flash (is_valid_firmware / validate_firmware_slot / "
+             "check_crc_from_index), one exhaustive single-bit sweep of a slot's data bytes (flipall: every bit of the "
+             "CRC word, signature, covered bytes and a few bytes beyond), one check_and_mark_done at the end of a real "
+             "session (start_update + handle_segment, optional one-bit corruption), or one checksum of crate crc; "
+             "compared: verdict, exact read log (addresses, lengths), mutating-op log; distinct = distinct query text",
+        trusted=["crate crc as compiled (compared with the model and two independent implementations on every crc line)"],
+        assumptions=["both slots of a session lie inside the device (otherwise the second status program can fail "
+                     "after the first one took effect)"],
+    ),
+    "C08": dict(
+        modules=["Fuota.Props.C08"],
+        suites=[dict(name="d5s", cfg="matrix", keys=["ops"]),
+                dict(name="d5m", cfg="matrix", keys=["ops"]),
+                dict(name="d6", cfg="matrix", keys=["ops"])],
+        rule="one evaluation = one API call (start / fragment / check / recover / cancel / mark) with the complete log "
+             "of its erase and program operations (slot, offset, length, payload digest); sessions over random "
+             "geometries incl. the last slot of the device and loss beyond capacity, malformed inputs, arbitrary flash "
+             "contents, ring histories; the oracle checks in-one-slot, in-session-slots, header-area, needs-0->1",
+        trusted=["crate bitvec / core as compiled"],
+        assumptions=["the NOR simulator counts a program that would need a 0->1 transition"],
+    ),
 }
